@@ -42,8 +42,8 @@ ASSUMPTIONS = [
     "strace sees the Python interpreter's own syscalls too: only network-family and process-creation syscalls are judged",
 ]
 SETTINGS: Dict[str, Dict[str, Any]] = {
-    "quick": {"cases": 160, "strace_every": 8, "budget_s": 75, "minimums": {"runs_into_a_directory_of_links_to_archived_reports": 6, "audited_runs": 120, "strace_runs": 12, "write_events": 250, "import_events": 20000, "modules_swept": 40, "import_sites": 250, "nontrivial": 100, "error_path_runs": 40, "runs_with_rp2_env_variable_set": 12, "tag_env_names_read_by_rp2": 2, "tag_error_types": 3, "tag_fault_class": 20, "large_input_runs": 2, "tag_hard_error": 9}, "required_tags": {"tag_country": list(COUNTRIES)}},
-    "thorough": {"cases": 1600, "strace_every": 8, "budget_s": 600, "minimums": {"runs_into_a_directory_of_links_to_archived_reports": 60, "audited_runs": 1200, "strace_runs": 120, "write_events": 4000, "import_events": 200000, "modules_swept": 40, "import_sites": 250, "nontrivial": 1000, "error_path_runs": 400, "runs_with_rp2_env_variable_set": 120, "tag_env_names_read_by_rp2": 2, "tag_error_types": 3, "tag_fault_class": 24, "large_input_runs": 20, "tag_hard_error": 11}, "required_tags": {"tag_country": list(COUNTRIES)}},
+    "quick": {"cases": 160, "strace_every": 8, "budget_s": 75, "minimums": {"runs_into_a_directory_of_links_to_archived_reports": 6, "audited_runs": 120, "strace_runs": 12, "write_events": 250, "import_events": 20000, "modules_swept": 40, "import_sites": 250, "nontrivial": 100, "error_path_runs": 40, "runs_with_rp2_env_variable_set": 12, "tag_env_names_read_by_rp2": 2, "tag_error_types": 3, "tag_fault_class": 20, "large_input_runs": 2, "tag_hard_error": 11}, "required_tags": {"tag_country": list(COUNTRIES)}},
+    "thorough": {"cases": 1600, "strace_every": 8, "budget_s": 600, "minimums": {"runs_into_a_directory_of_links_to_archived_reports": 60, "audited_runs": 1200, "strace_runs": 120, "write_events": 4000, "import_events": 200000, "modules_swept": 40, "import_sites": 250, "nontrivial": 1000, "error_path_runs": 400, "runs_with_rp2_env_variable_set": 120, "tag_env_names_read_by_rp2": 2, "tag_error_types": 3, "tag_fault_class": 24, "large_input_runs": 20, "tag_hard_error": 13}, "required_tags": {"tag_country": list(COUNTRIES)}},
 }
 NETWORK_MODULES = {
     "socket", "_socket", "ssl", "_ssl", "http", "http.client", "http.server", "http.cookiejar", "urllib.request", "urllib3", "ftplib", "smtplib", "poplib", "imaplib",
@@ -73,7 +73,7 @@ def _listing(root: str) -> List[str]:
 
 INPUT_ENV = ("CURRENCY_CODE", "LONG_TERM_CAPITAL_GAINS")  # inputs of the generic country (their faults are C12's classes)
 ENV_VALUES = ("1", "DEBUG", "INFO", "yes")
-HARD_ERRORS = ("ini-garbage-before-first-section", "ods-is-not-a-zip", "ods-missing", "ini-missing", "wrong-cell-type-number-in-text-field", "wrong-cell-type-text-in-timestamp", "ini-binary", "prefix-with-missing-subdirectory", "ini-is-a-directory", "ods-is-a-directory", "output-dir-is-a-file")
+HARD_ERRORS = ("ini-garbage-before-first-section", "ods-is-not-a-zip", "ods-missing", "ini-missing", "wrong-cell-type-number-in-text-field", "wrong-cell-type-text-in-timestamp", "ini-binary", "prefix-with-missing-subdirectory", "ini-is-a-directory", "ods-is-a-directory", "output-dir-is-a-file", "cwd-log-is-a-file", "interpreter-without-_decimal")
 KINDS = ("valid", "documented-fault", "valid-env", "documented-fault", "valid", "hard-error", "documented-fault", "invalid-option", "valid-env", "documented-fault", "large-input")
 
 
@@ -297,8 +297,17 @@ def _one(ctx: Any, case: Dict[str, Any], name: str, strace: bool) -> None:
                     archived[os.path.join(archive, "filed-" + fname)] = _sha(os.path.join(archive, "filed-" + fname))
             if archived:
                 ctx.count("runs_into_a_directory_of_links_to_archived_reports")
+        scratch_tmp = os.path.join(ws.root, "tmp")
+        os.makedirs(scratch_tmp, exist_ok=True)
+        if case.get("hard") == "cwd-log-is-a-file":
+            # ./log cannot be created (a file of that name is in the way, e.g. left by `rp2_us ... > log`): RP2 has nowhere to log
+            with open(os.path.join(ws.root, "log"), "w", encoding="utf-8") as handle:
+                handle.write("output of an earlier run redirected here\n")
         before = {"ini": _sha(ws.ini), "ods": _sha(ws.ods), "cwd": _listing(ws.root), "home": _listing(home)}
-        env_extra = dict(case.get("env") or {}) or None
+        env_extra = dict(case.get("env") or {})
+        env_extra["TMPDIR"] = scratch_tmp  # temporary files, if any, are then inside the tree whose listing is compared
+        if case.get("hard") == "interpreter-without-_decimal":
+            env_extra["RPV_BLOCK_MODULES"] = "_decimal"
         res = ws.run(case["country"], case["args"], out_dir=out_dir, audit=True, strace=False, home=home, env_extra=env_extra)
         ctx.count("executions")
         ctx.count("valid_cases")
